@@ -135,11 +135,14 @@ def splitColon : Bytes → Bytes × Option Bytes
 
 abbrev Hdrs := List (Bytes × List Bytes)
 
-def hget (h : Hdrs) (k : Bytes) : List Bytes := (h.lookup k).getD []
+def hget : Hdrs → Bytes → List Bytes
+  | [], _ => []
+  | (k', vs) :: t, k => if k' == k then vs else hget t k
 
-/-- `h[k] = vals` keeping the position of an existing key -/
-def hset (h : Hdrs) (k : Bytes) (vals : List Bytes) : Hdrs :=
-  if h.any (·.1 == k) then h.map (fun kv => if kv.1 == k then (k, vals) else kv) else h ++ [(k, vals)]
+/-- `h[k] = vals` keeping the position of an existing key (keys are unique) -/
+def hset : Hdrs → Bytes → List Bytes → Hdrs
+  | [], k, vals => [(k, vals)]
+  | (k', vs) :: t, k, vals => if k' == k then (k, vals) :: t else (k', vs) :: hset t k vals
 
 def happend (h : Hdrs) (k : Bytes) (v : Bytes) : Hdrs := hset h k (hget h k ++ [v])
 
